@@ -881,10 +881,11 @@ fn main() {
         let mut rng = Rng::from_env();
         let rounds = if thorough { 4 } else { 1 };
         for k in 0..rounds {
-            let mut r1 = rng.fork(2 * k);
-            scripts.push(gen_script(&mut r1, &format!("euclid{}", k), "euclidean", 4, &lim, thorough));
-            let mut r2 = rng.fork(2 * k + 1);
-            scripts.push(gen_script(&mut r2, &format!("cosine{}", k), "cosine", 4, &lim, thorough));
+            // every metric the server supports (config.rs DistanceMetric), one server process each
+            for (m, (nm, metric)) in [("euclid", "euclidean"), ("cosine", "cosine"), ("innerprod", "innerproduct")].iter().enumerate() {
+                let mut rr = rng.fork(3 * k + m as u64);
+                scripts.push(gen_script(&mut rr, &format!("{}{}", nm, k), metric, 4, &lim, thorough));
+            }
         }
     }
     let t0 = std::time::Instant::now();
